@@ -12,7 +12,7 @@ from vf.checks.c11 import apply_ops, first_diff
 PROP = "C12"
 RULE = (
     "For Hypothesis-generated state pairs (old state S0 on disk, new state S1 in memory) x {json, pickle} x prior "
-    "on-disk configuration {no file; good file; good + stale .bak; good + stale truncated .tmp; good + both; good + a complete, LONGER stale .tmp; good file reached through a symbolic link}: the operation "
+    "on-disk configuration {no file; good file; good + stale .bak; good + stale truncated .tmp; good + both; good + a complete, LONGER stale .tmp; good file reached through a symbolic link; good file named by its bare name relative to the working directory}: the operation "
     "trace of one complete save is recorded through the file interposer (open, every write, flush, fsync, close, "
     "both renames, remove) and EVERY operation index k is enumerated x {crash before op k, crash after op k, op k "
     "fails with OSError} x durability {all written data survives; unsynced data lost -> synced prefix / cut in "
